@@ -153,7 +153,7 @@ def _worker(w, W, indices, engine, prop, master_seed, out_fd, n_samples, deadlin
 
         try:
             recs = fork_call(many, wall_s=CHILD_WALL_S + 20 * K)
-            if hasattr(mod, "twin_many"):
+            if hasattr(mod, "twin_many") and mod.needs_twin(prop):
                 plans = [r.get("plan") for r in recs]
 
                 def twin(seeds=seeds[: len(recs)]):
